@@ -64,6 +64,7 @@ type Interp struct {
 	depth    int
 	reach    map[string]bool
 	once     map[string]bool
+	syncMaps map[string]*MapObj // sync.Map values, keyed by the object they live in: association lists with key equality as for built-in maps
 	encoded  map[string]int
 	stubs    map[string]int
 	asserts  int
